@@ -8,8 +8,11 @@ A case is a JSON-able dict (also the format of corpus/c09_*.json):
   ffvar   'absent' | None | attribute name   (force_field.variables['center_weight'])
   ignore  ignore_missing_graphs
   atoms   [[key, pos, {attr: 'n/d'}], ...]   the fine-grained molecule in node order;
-          pos = ['n/d','n/d','n/d'] | None (position=None) | 'absent' (no position attribute)
-                | 'nan' (array of NaN; only generated when finding F-C09-1 is registered, see below)
+          pos = [c, c, c] | None (position=None) | 'absent' (no position attribute);
+                c = 'n/d' | 'nan' | 'inf' | '-inf'; an atom with a non-finite coordinate is WITHOUT
+                coordinates (vermouth.selectors.selector_has_position) just like None/'absent'
+  or a HISTORY: entry 'history', weight, ignore, steps [{ffvar, atoms, beads}, ...]: ONE DoAverageBead
+  object applied to the molecules in turn (each with its own force field / center_weight variable)
   beads   [{'graph': [keys in subgraph order] | None, 'weights': [[key,'n/d'],...] | None,
             'container': 'subgraph' | 'nx'}, ...]
 All numbers are exact rationals whose float image is exact (dyadic); the float computation of
@@ -37,7 +40,13 @@ from vermouth.processors import average_beads
 from vermouth.processors.average_beads import do_average_bead, DoAverageBead
 
 Q = 1 << 30
-NOPOS = (None, 'absent', 'nan')   # no coordinates: position=None, no attribute, non-finite coordinates
+NONFINITE = ('nan', 'inf', '-inf')
+
+
+def has_pos(pos):
+    """the property's 'atom with coordinates': attribute present, not None, every coordinate finite"""
+    return pos is not None and pos != 'absent' and not any(c in NONFINITE for c in pos)
+
 SENTINEL = (123.0, -456.0, 789.0)
 TOL_ZONE = F(1, 1000000)          # 0 < |sum w| < 1e-6: the code's 1e-7 tolerance; oracle clause not applied
 
@@ -69,10 +78,8 @@ def build(case):
         d = {'atomname': 'A%d' % key, 'resname': 'XX', 'resid': 1 + n // 4, 'chain': 'A'}
         if pos is None:
             d['position'] = None
-        elif pos == 'nan':
-            d['position'] = np.array([np.nan] * 3)
         elif pos != 'absent':
-            d['position'] = np.array([as_number(c, 0) for c in pos], dtype=float)
+            d['position'] = np.array([float(c) if c in NONFINITE else as_number(c, 0) for c in pos], dtype=float)
         for name, v in attrs.items():
             d[name] = as_number(v, (key + n) % 2)
         aa.add_node(key, **d)
@@ -101,12 +108,15 @@ def quant(v):
     return floor(F(float(v)) * Q + F(1, 2))
 
 
-def run_impl(case):
-    """returns (canonical string, per-bead raw results or None)"""
+def run_impl(case, proc=None):
+    """returns (canonical string, per-bead raw results or None); `proc` = an existing DoAverageBead
+    object to use instead of a fresh one"""
     aa, cg = build(case)
     try:
         if case['entry'] == 'function':
             ret = do_average_bead(cg, ignore_missing_graphs=case['ignore'], weight=case['weight'])
+        elif proc is not None:
+            ret = proc.run_molecule(cg)
         else:
             ret = DoAverageBead(ignore_missing_graphs=case['ignore'], weight=case['weight']).run_molecule(cg)
     except KeyError:
@@ -154,7 +164,7 @@ def proto(case):
             g = []
             for k in b['graph']:
                 _, pos, attrs = atoms[k]
-                p = None if pos in NOPOS else [rat(c) for c in pos]
+                p = None if (pos is None or pos == 'absent') else [None if c in NONFINITE else rat(c) for c in pos]
                 g.append([k, p, [[n, rat(v)] for n, v in attrs.items()]])
         w = None if b['weights'] is None else [[k, rat(v)] for k, v in b['weights']]
         beads.append([g, w])
@@ -186,7 +196,7 @@ def constituents(case, b):
     res = []
     for k in b['graph']:
         _, pos, attrs = atoms[k]
-        if pos in NOPOS:
+        if not has_pos(pos):
             continue
         w = mw.get(k, F(1))
         if attr is not None:
@@ -232,8 +242,13 @@ def oracle(case, raw):
         cur[0] = i
         if b['graph'] is not None:
             atoms = {a[0]: a for a in case['atoms']}
-            if any(atoms[k][1] in NOPOS for k in b['graph']):
+            if any(not has_pos(atoms[k][1]) for k in b['graph']):
                 flags.add('has_unpositioned')
+            if any(isinstance(atoms[k][1], list) and not has_pos(atoms[k][1]) for k in b['graph']):
+                flags.add('has_nonfinite_coordinate')
+            if any(isinstance(atoms[k][1], list) and 0 < sum(c in NONFINITE for c in atoms[k][1]) < 3
+                   for k in b['graph']):
+                flags.add('has_partly_defined_position')
         if b['graph'] is None:
             if r is not None:
                 errs.append('particle %d without graph was modified' % i)
@@ -298,13 +313,14 @@ def fs(x):
     return str(F(x))
 
 
-def gen_case(rng, big=False):
+def gen_case(rng, big=False, nonfinite=None):
     kind = rng.choice(['plain'] * 6 + ['negative', 'tiny', 'allzero'])
     max_cons = 4 if kind == 'negative' else (12 if big and rng.random() < 0.2 else 8)
     n_atoms = rng.choice([0, 1, 2, 3, 4, 6, 8, 8, 10, 10, 14, 14])
     keys = rng.sample(range(0, 60), n_atoms)
     p_missing = rng.choice([0, 0.1, 0.3, 0.6])
     p_noattr = rng.choice([0, 0, 0, 0.05])
+    p_nonfinite = nonfinite if nonfinite is not None else rng.choice([0, 0, 0.1, 0.3])
     masses = [F(1), F(2)] if kind == 'negative' else MASS + ([F(0)] if rng.random() < 0.3 else [])
     atoms = []
     for k in keys:
@@ -312,6 +328,9 @@ def gen_case(rng, big=False):
             pos = rng.choice([None, 'absent'])
         else:
             pos = [fs(F(rng.randint(-640, 640), 64)) for _ in range(3)]
+        if isinstance(pos, list) and rng.random() < p_nonfinite:
+            for ax in rng.sample(range(3), rng.choice([1, 1, 2, 3])):
+                pos[ax] = rng.choice(['nan', 'nan', 'inf', '-inf'])
         attrs = {}
         for name in rng.sample(ATTRS, 2):
             if rng.random() >= p_noattr:
@@ -363,7 +382,7 @@ def gen_case(rng, big=False):
 def moved(case, rot, shift):
     c = json.loads(json.dumps(case))
     for a in c['atoms']:
-        if a[1] not in NOPOS:
+        if has_pos(a[1]):
             p = [F(x) for x in a[1]]
             a[1] = [fs(sum(rot[r][k] * p[k] for k in range(3)) + shift[r]) for r in range(3)]
     c['kind'] = 'moved'
@@ -428,7 +447,7 @@ def transcribe(cg, aa_nodes, errs):
                 if (pos is None) != (sp is None) or (pos is not None and not np.array_equal(pos, sp)):
                     errs.append('particle %r: constituent %r has position %r in graph, %r in the molecule'
                                 % (key, k, pos, sp))
-            ent = [k, None if pos is None else [frac_str(c) for c in pos],
+            ent = [k, None if pos is None else [frac_str(c) if np.isfinite(c) else 'nan' for c in pos],
                    {'mass': frac_str(d['mass'])} if 'mass' in d else {}]
             if k in atoms and atoms[k] != ent:
                 errs.append('atom %r differs between the graphs of two particles' % k)
@@ -543,31 +562,78 @@ def within_one(a, b):
     return True
 
 
-# Constituents whose coordinates are NaN (vermouth.selectors.selector_has_position says they have no
-# position).  The model and the oracle treat them as unpositioned; the code as it is averages them in
-# (finding F-C09-1).  The stream is generated only once the finding is registered in
-# known_findings.json (status known: reported as KNOWN-FINDING; status fixed: must pass).
-NAN_FINDING = 'F-C09-1'
-if any(k['id'] == NAN_FINDING for k in chk.known):
-    rng = chk.rng('nanpos')
-    for i in range(3000 if chk.thorough else 300):
-        c = gen_case(rng)
-        hit = False
-        for a in c['atoms']:
-            if a[1] not in NOPOS and rng.random() < 0.25:
-                a[1] = 'nan'
-                hit = True
-        if hit:
-            c['kind'] = 'nanpos'
-            cases.append(('nanpos-%d' % i, c, None, None))
+# Constituents with non-finite coordinates, densely (F-C09-1, fixed in /repo by 8cf210c: they are
+# without coordinates and must never contribute, even when only ONE coordinate is undefined).
+rng = chk.rng('nanpos')
+for i in range(3000 if chk.thorough else 300):
+    c = gen_case(rng, nonfinite=rng.choice([0.25, 0.5]))
+    c['kind'] = 'nanpos'
+    cases.append(('nanpos-%d' % i, c, None, None))
 
-lines, impls, raws = [], [], []
+
+# ----------------------------------------------------------------------------
+# histories: ONE DoAverageBead object applied to 2-3 molecules whose force fields configure
+# different centre weights (or none).  Each application must equal what a fresh processor gives.
+# ----------------------------------------------------------------------------
+def gen_history(rng):
+    weight = rng.choice([None, None, None, None, False, 'mass', 'other'])
+    ignore = rng.random() < 0.5
+    steps = []
+    base = gen_case(rng)
+    for j in range(rng.choice([2, 2, 3])):
+        c = base if (j and rng.random() < 0.5) else gen_case(rng)
+        base = c
+        steps.append({'ffvar': rng.choice(['absent', 'absent', None, 'mass', 'mass', 'other']),
+                      'atoms': c['atoms'], 'beads': c['beads']})
+    return {'entry': 'history', 'weight': weight, 'ignore': ignore, 'steps': steps, 'kind': 'history'}
+
+
+def step_case(h, st):
+    return {'entry': 'processor', 'weight': h['weight'], 'ffvar': st['ffvar'], 'ignore': h['ignore'],
+            'atoms': st['atoms'], 'beads': st['beads']}
+
+
+def proto_history(h):
+    steps = []
+    for st in h['steps']:
+        toks = dec(proto(step_case(h, st)))
+        steps.append([toks[3], toks[5]])
+    wt = 0 if h['weight'] is False else h['weight']
+    return line('hist', wt, h['ignore'], steps)
+
+
+def run_history(h):
+    """returns (canonical string, [raw per step], errors of the fresh-processor comparison)"""
+    proc = DoAverageBead(ignore_missing_graphs=h['ignore'], weight=h['weight'])
+    outs, raws_, errs = [], [], []
+    for j, st in enumerate(h['steps']):
+        sc = step_case(h, st)
+        s1, raw1 = run_impl(sc, proc)
+        s2, _ = run_impl(sc)
+        if s1 != s2:
+            errs.append('step %d: the processor object used before gives %s, a fresh DoAverageBead gives %s'
+                        % (j, clip(s1, 200), clip(s2, 200)))
+        outs.append(s1)
+        raws_.append(raw1)
+    return ' | '.join(outs), raws_, errs
+
+
+rng = chk.rng('history')
+for i in range(6000 if chk.thorough else 500):
+    cases.append(('history-%d' % i, gen_history(rng), None, None))
+
+lines, impls, raws, pre_errs = [], [], [], []
 for cid, c, twin, motion in cases:
-    s, raw = run_impl(c)
+    if c['entry'] == 'history':
+        s, raw, e = run_history(c)
+        lines.append(proto_history(c))
+    else:
+        s, raw = run_impl(c)
+        e = []
+        lines.append(proto(c))
     impls.append(s)
     raws.append(raw)
-    lines.append(proto(c))
-pre_errs = [[] for _ in cases]
+    pre_errs.append(e)
 for cid, c, im, raw, e in pipeline:
     cases.append((cid, c, None, None))
     impls.append(im)
@@ -577,6 +643,29 @@ for cid, c, im, raw, e in pipeline:
 models = chk.drv.ask(lines) if chk.lean_ok else [None] * len(lines)
 
 for idx, ((cid, c, twin, motion), ln, im, mo, raw) in enumerate(zip(cases, lines, impls, models, raws)):
+    if c['entry'] == 'history':
+        errs, flags = list(pre_errs[idx]), set()
+        for j, (st, r, sim) in enumerate(zip(c['steps'], raw, im.split(' | '))):
+            sc = step_case(c, st)
+            e, f = oracle(sc, r)
+            errs += ['step %d (center_weight=%r): %s' % (j, st['ffvar'], m) for m in e]
+            flags |= f
+            if sim.startswith('exception') or sim == 'returned-other-object':
+                errs.append('step %d: unexpected behaviour: %s' % (j, sim))
+            elif r is None and must_succeed(sc):
+                errs.append('step %d: no positions generated (%s) although every particle has a graph and every '
+                            'constituent has the centre-weight attribute' % (j, sim))
+        ffvars = [st['ffvar'] for st in c['steps']]
+        chk.count('kind=history')
+        chk.count('history weight=%r' % (c['weight'],))
+        chk.count('history_len=%d' % len(ffvars))
+        if len({None if v == 'absent' else v for v in ffvars}) > 1:
+            chk.count('history_center_weight_changes')
+        for sim in im.split(' | '):
+            chk.count('outcome=' + sim.split()[0])
+        nontriv = 'unequal' in flags and len({None if v == 'absent' else v for v in ffvars}) > 1
+        chk.case(cid, ln, im, mo, [str(e) for e in errs], nontriv)
+        continue
     errs, flags = oracle(c, raw)
     errs = pre_errs[idx] + errs
     if c.get('kind') == 'pipeline':
@@ -628,12 +717,5 @@ for idx, ((cid, c, twin, motion), ln, im, mo, raw) in enumerate(zip(cases, lines
                   if sum(1 for b in c['beads'] if b['graph'] and k in b['graph']) > 1]
         if shared:
             chk.count('case_with_shared_atoms')
-    finding = None
-    if errs and c.get('kind') == 'nanpos':
-        atoms = {a[0]: a for a in c['atoms']}
-        nanbeads = {i for i, b in enumerate(c['beads'])
-                    if b['graph'] is not None and any(atoms[k][1] == 'nan' for k in b['graph'])}
-        if all(getattr(e, 'bead', None) in nanbeads for e in errs):
-            finding = NAN_FINDING
-    chk.case(cid, ln, im, mo, [str(e) for e in errs], nontriv, finding)
+    chk.case(cid, ln, im, mo, [str(e) for e in errs], nontriv)
 chk.finish()
